@@ -78,6 +78,7 @@ def run(ctx, rep):
         check_prec(ctx, crate, rep, cfg)
         check_cut(crate, rep, cfg)
         check_sc(crate, rep, cfg)
+        check_lookup(crate, rep, cfg)
 
 
 def check_prec(ctx, crate, rep, cfg):
@@ -433,3 +434,55 @@ def ip_locals(vm):
                 if rv["k"] == "use" and rv["op"]["k"] in ("copy", "move") and not rv["op"]["pl"]["p"]:
                     out.add(rv["op"]["pl"]["l"])
     return {l for l in out if vm.local_name(l)} or out
+
+
+# ---------------------------------------------------------------------------------------------------------------- LOOKUP
+
+LOOKUPS = [("BinarySubscript", "value::Value::get_item"), ("Slice", "value::Value::slice")]
+
+
+def check_lookup(crate, rep, cfg):
+    """C02.LOOKUP — `x[i]` and `x[a:b:c]` are evaluated by the one value-level operation that knows the type rules (a string subscript on an
+    array/string, a non-sliceable base … are errors there): in the interpreter arm the only values pushed are the Ok payload of that call, or
+    `undefined` from the optional-chaining shortcut BEFORE the lookup; the Err edge of the call never rejoins the push."""
+    from props.c03 import vm_arm
+    import rrec
+    vm = crate.one("vm::interpreter::VirtualMachine::<'tera>::interpret")
+    tr = Tracer(vm)
+    for variant, fn in LOOKUPS:
+        reg = vm_arm(vm, crate, variant)
+        calls = [(bb, t) for bb, t in vm.calls(sorted(reg)) if callee_def(t).endswith(fn)]
+        pushes = [(bb, t) for bb, t in vm.calls(sorted(reg)) if callee_def(t).endswith("stack::Stack::push")]
+        ok = len(calls) == 1 and bool(pushes)
+        why = "%d calls of %s and %d pushes in the arm" % (len(calls), fn, len(pushes))
+        if ok:
+            cb = calls[0][0]
+            heads = frozenset(bb for bb, t in find_calls(vm, ["parsing::instructions::Chunk::get"]))
+            after = vm.reach_from(cb, removed_blocks=heads) & reg
+            n_res = 0
+            for pb, pt in pushes:
+                ls = tr.operand(pt["args"][1])
+                res = [l for l in ls if l.kind == "call" and l.detail[2] == cb and l.projs[:2] == ("as:Ok", ".0")]
+                und = [l for l in ls if l.kind == "call" and l.detail[0].endswith("value::Value::undefined")]
+                if not ls or len(res) + len(und) != len(ls):
+                    ok = False
+                    why = "a value pushed at %s is neither the lookup's Ok payload nor undefined(): %s" % (vm.where(pb), sorted(leaf_str(l) for l in ls if l not in res and l not in und)[:3])
+                elif und and pb in after:
+                    ok = False
+                    why = "undefined is pushed at %s AFTER the lookup (a failed lookup must raise)" % vm.where(pb)
+                elif res:
+                    n_res += 1
+                    if not all(vm.dominates(tgt, pb) for sb, tgt in rrec.ok_edges_of_call(vm, crate, cb)) or not rrec.ok_edges_of_call(vm, crate, cb):
+                        ok = False
+                        why = "the push at %s is not under the Ok edge of the lookup" % vm.where(pb)
+            if ok and n_res != 1:
+                ok = False
+                why = "%d pushes of the lookup result" % n_res
+            # the base looked up is the popped value itself
+            if ok:
+                bl = tr.operand(calls[0][1]["args"][0])
+                ok = bool(bl) and all(leaf_call_is(l, "vm::stack::Stack::pop") for l in bl)
+                why = "the base of the lookup is not the popped value"
+        rep.add("C02.LOOKUP", "C02.LOOKUP:%s:only-the-typed-lookup" % variant, ok, vm.where(calls[0][0]) if calls else vm.where(0),
+                "the %s arm pushes only the Ok payload of %s on the popped base (or undefined from the `?` shortcut before it); type errors of the lookup are raised, not coerced" % (variant, fn.rsplit("::", 1)[-1])
+                + ("" if ok else " — VIOLATED: " + why))
